@@ -221,6 +221,15 @@ def c05(ck):
     ck.replay(cases, args=["-prop", "C05"])
     ck.exhaustive = True
     ck.extra["alphabets"] = alph
+    # beyond the alphabets: arbitrary bytes (invalid UTF-8, NUL...).  A totality MONITOR: here the
+    # specification only contributes "a value or an error, never a panic or a hang"
+    n = 20000 if ck.quick else 400000
+    out = ck.harness(["fuzzread", "-n", str(n), "-seed", str(ck.seed)], timeout=3000)
+    for o in out[:-1]:
+        ck.report("%s:%s:%s" % (o["kind"], o["site"], o["api"]), "%s %s on random bytes %r: %s" % (o["api"], o["kind"], o["text"], o["msg"]),
+                  {"case": {"kind": "text", "text": o["text"], "cls": "unspec", "id": "fuzz"}, "args": ["-prop", "C05"]})
+    ck.evaluations += n
+    ck.extra["random_byte_strings"] = n
 
 
 @check("C16")
@@ -252,6 +261,14 @@ def c06(ck):
     cases = text_cases(ck, ["escapes", "strings", "tokens", "numbers"] + ([] if ck.quick else ["brackets", "macros", "tokens2"]), 4)
     ck.replay(cases, args=["-prop", "C06"])
     ck.exhaustive = True
+    # beyond the alphabet: random values with arbitrary Unicode strings, depth <= 6 (a round-trip MONITOR)
+    n = 20000 if ck.quick else 400000
+    out = ck.harness(["fuzzvalue", "-n", str(n), "-seed", str(ck.seed)], timeout=3000)
+    for o in out[:-1]:
+        ck.report(o["key"], "random value %s prints as %r which does not read back to it (%s)" % (o["value"], o["printed"], o["err"]),
+                  {"case": {"kind": "value-text", "value": o["value"], "printed": o["printed"]}})
+    ck.evaluations += n
+    ck.extra["random_unicode_values"] = n
 
 
 @check("C04")
